@@ -31,7 +31,9 @@ CONTENTS = [b"", b"a", b"hello\n", b"\x00\x01\x02", b"blob 3\x00abc", b"\xff\xfe
             b"line1\nline2\n", b"12345", b" ", b"x" * 1000]
 
 
-def content(rng):
+def content(rng, prof=None):
+    if prof and prof.get("contents") and rng.random() < 0.85:
+        return rng.choice(prof["contents"])
     r = rng.random()
     if r < 0.6:
         return rng.choice(CONTENTS)
@@ -121,7 +123,7 @@ def gen_edit(rng, st, prof):
     st_files = st.files
     st = _NoIgnore(st)
     if st.files and r < 0.25:
-        return Edit("write", rng.choice(st.files), content(rng))            # modify
+        return Edit("write", rng.choice(st.files), content(rng, prof))            # modify
     if st.files and r < 0.32:
         p = rng.choice(st.files)
         return Edit("write", p, st.s.files[p])                               # rewrite identically
@@ -144,8 +146,8 @@ def gen_edit(rng, st, prof):
                 continue
         if p in st.s.dirs or any(a in st.s.files for a in parents(p)) or p in st.s.files:
             continue
-        return Edit("write", p, content(rng))
-    return Edit("write", b"f%d" % rng.randrange(1000), content(rng))
+        return Edit("write", p, content(rng, prof))
+    return Edit("write", b"f%d" % rng.randrange(1000), content(rng, prof))
 
 
 DEFAULT_WEIGHTS = {
